@@ -119,8 +119,20 @@ var props = map[string]prop{
 		p.Components = comps
 		return p
 	}(),
-	"C20": e1prop("C20", 240, 6000, e1Case+"2-4 light clients per run consume their node's ApplyUpdate/RevertUpdate stream after a JSON round trip of every update and must end with proofs that verify against the state exactly like in-memory clients (every tracked element, incl. spent ones and contracts, across reorgs).",
-		"probe.light.json-update", "reach.light-revert"),
+	"C20": func() prop {
+		p := e1prop("C20", 240, 6000, e1Case+"2-4 light clients per run consume their node's ApplyUpdate/RevertUpdate stream after a JSON round trip of every update (refreshing proofs before or, other clients, after adopting the elements the update created) and must end with proofs that verify against the state exactly like in-memory clients (every tracked element, incl. spent ones and contracts, across reorgs). Text channel: every transaction a wallet submits and every block and state a node applies crosses a JSON API (parsed back: equal encoding and ID); policies in string form, unlock keys (incl. non-alphanumeric algorithm specifiers), addresses and chain indices in text form; the channel's fault alters / drops / adds one character of an identifier inside the JSON (address, hash, public key, signature) or of an address / chain index string: the parser must refuse, or (informational members) return the unchanged value, and never panic. Second part (engine E2): a host daemon publishes rhp v2/v3/v4 protocol objects (host settings, prices, price tables, accounts, tokens, requests, contracts, policies) as JSON over the simulated connection with the same identifier faults.",
+			"probe.light.json-update", "reach.light-revert", "probe.light.refresh-after-adopt", "probe.api.json-roundtrip", "probe.api.corrupt-address", "probe.api.corrupt-hash", "probe.api.corrupt-chain-index", "probe.api.policy-string", "text.roundtrip", "text.harmed")
+		p.Parts = append(p.Parts, part{Engine: "E2", Pkg: "sess", Profile: "C20", QuickRuns: 16000, QuickBudgetS: 60, ThoroughRuns: 800000, ThoroughBudgetS: 600})
+		comps := map[string]string{}
+		for k, v := range p.Components {
+			comps[k] = v
+		}
+		for k, v := range e2Components {
+			comps[k] = v
+		}
+		p.Components = comps
+		return p
+	}(),
 	"C02": e1prop("C02", 240, 6000, e1Case+"probe profile: at sampled reachable states the adversary builds blocks that contain a second use of an element (same transaction, two transactions, v1+v2, ephemeral, spent in an earlier block with pre-spend or maintained proof, siafunds), re-signed and re-sealed so that nothing else is wrong, and offers them to ValidateBlock on a private fork: every one must be rejected, every control accepted; over accepted histories the reference ledger refuses any repeated spend/resolution. Non-trivial = at least one probe row offered.",
 		"probe.D1-v1-same-txn.offered", "probe.D1-v2-same-txn.offered", "probe.D2-v1-v1.offered", "probe.D2-v2-v2.offered", "probe.D2-v1-v2.offered", "probe.D3-ephemeral-twice.offered", "probe.D4-v2-maintained-proof.offered", "probe.D4-v1-maintained-proof.offered", "probe.D2-sf-v2-v2.offered", "probe.D2-sf-v1-v1.offered"),
 	"C03": e1prop("C03", 240, 6000, e1Case+"probe profile: valid signed v1 (whole and partial covered fields) and v2 (every wallet policy kind) transactions are tampered with at one point (covered content, signature bit/drop/add/reorder, key index, other conditions/policy, opaque branch, attestation fields, Foundation updates), re-sealed and offered: tampered rejected, untampered accepted. Content rows are only asserted for inputs that carry a signature (a hash-lock binds nothing).",
